@@ -30,6 +30,8 @@ ASSUMPTIONS = [
 
 def load_contracts():
     sys.path.insert(0, VERIF)
+    if REPO not in sys.path:
+        sys.path.insert(0, REPO)   # contract modules may enumerate classes / tables of the tree under test
     from . import api
     import contracts
     for m in sorted(pkgutil.iter_modules(contracts.__path__), key=lambda m: m.name):
